@@ -203,9 +203,6 @@ func writeDefaultsBlock(b *bytes.Buffer, def *DefaultsBlock) {
 func writeVarsBlock(b *bytes.Buffer, vars *VarsBlock) {
 	b.WriteString("vars {\n")
 	for _, item := range vars.Items {
-		if strings.TrimSpace(item.Name) == "" {
-			continue
-		}
 		fmt.Fprintf(b, "  %s %s\n", formatValue(item.Name, item.NameQuoted), formatValue(item.Value, item.ValueQuoted))
 	}
 	b.WriteString("}\n")
@@ -214,9 +211,6 @@ func writeVarsBlock(b *bytes.Buffer, vars *VarsBlock) {
 func writeSecretsBlock(b *bytes.Buffer, s *SecretsBlock) {
 	b.WriteString("secrets {\n")
 	for _, secret := range s.Items {
-		if strings.TrimSpace(secret.ID) == "" {
-			continue
-		}
 		fmt.Fprintf(b, "  secret %s {\n", formatValue(secret.ID, secret.IDQuoted))
 		if secret.ValueSet {
 			fmt.Fprintf(b, "    value %s\n", formatValue(secret.Value, secret.ValueQuoted))
@@ -348,9 +342,6 @@ func writeAPIBlock(b *bytes.Buffer, name string, api *APIBlock) {
 		writeTLSBlock(b, api.TLS)
 	}
 	for i, t := range api.AuthTokens {
-		if strings.TrimSpace(t) == "" {
-			continue
-		}
 		fmt.Fprintf(b, "  auth token %s\n", formatValue(t, quotedAt(api.AuthTokensQuoted, i)))
 	}
 	b.WriteString("}\n")
@@ -449,15 +440,9 @@ func writeTLSBlock(b *bytes.Buffer, t *TLSBlock) {
 func writeEgressBlock(b *bytes.Buffer, eg *EgressBlock) {
 	b.WriteString("  egress {\n")
 	for i, v := range eg.Allow {
-		if strings.TrimSpace(v) == "" {
-			continue
-		}
 		fmt.Fprintf(b, "    allow %s\n", formatValue(v, quotedAt(eg.AllowQuoted, i)))
 	}
 	for i, v := range eg.Deny {
-		if strings.TrimSpace(v) == "" {
-			continue
-		}
 		fmt.Fprintf(b, "    deny %s\n", formatValue(v, quotedAt(eg.DenyQuoted, i)))
 	}
 	if eg.HTTPSOnlySet {
@@ -553,9 +538,6 @@ func writeTracingBlock(b *bytes.Buffer, t *TracingBlock) {
 		writeTracingRetryBlock(b, t.Retry)
 	}
 	for _, h := range t.Headers {
-		if strings.TrimSpace(h.Name) == "" {
-			continue
-		}
 		fmt.Fprintf(b, "    header %s %s\n",
 			formatValue(h.Name, h.NameQuoted),
 			formatValue(h.Value, h.ValueQuoted),
@@ -657,7 +639,7 @@ func writeRouteBlock(b *bytes.Buffer, r Route) {
 			formatValue(basic.Pass, basic.PassQuoted),
 		)
 	}
-	if r.AuthForward != nil && strings.TrimSpace(r.AuthForward.URL) != "" {
+	if r.AuthForward != nil {
 		if shouldWriteRouteAuthForwardBlock(*r.AuthForward) {
 			writeRouteAuthForwardBlock(b, *r.AuthForward)
 		} else {
@@ -668,9 +650,6 @@ func writeRouteBlock(b *bytes.Buffer, r Route) {
 		writeRouteAuthHMACBlock(b, r)
 	} else {
 		for i, s := range r.AuthHMACSecrets {
-			if strings.TrimSpace(s) == "" {
-				continue
-			}
 			if isAuthHMACRef(r, i) {
 				fmt.Fprintf(b, "  auth hmac secret_ref %s\n", formatValue(s, quotedAt(r.AuthHMACSecretsQuoted, i)))
 			} else {
@@ -699,9 +678,6 @@ func writeRouteBlock(b *bytes.Buffer, r Route) {
 			fmt.Fprintf(b, "    path %s\n", formatValue(r.Pull.Path, r.Pull.PathQuoted))
 		}
 		for i, t := range r.Pull.AuthTokens {
-			if strings.TrimSpace(t) == "" {
-				continue
-			}
 			fmt.Fprintf(b, "    auth token %s\n", formatValue(t, quotedAt(r.Pull.AuthTokensQuoted, i)))
 		}
 		b.WriteString("  }\n")
@@ -755,21 +731,12 @@ func writeNamedMatcherBlock(b *bytes.Buffer, m NamedMatcher) {
 
 func writeMatchBody(b *bytes.Buffer, indent string, m *MatchBlock) {
 	for i, method := range m.Methods {
-		if strings.TrimSpace(method) == "" {
-			continue
-		}
 		fmt.Fprintf(b, "%smethod %s\n", indent, formatValue(method, quotedAt(m.MethodsQuoted, i)))
 	}
 	for i, h := range m.Hosts {
-		if strings.TrimSpace(h) == "" {
-			continue
-		}
 		fmt.Fprintf(b, "%shost %s\n", indent, formatValue(h, quotedAt(m.HostsQuoted, i)))
 	}
 	for _, h := range m.Headers {
-		if strings.TrimSpace(h.Name) == "" {
-			continue
-		}
 		fmt.Fprintf(b, "%sheader %s %s\n",
 			indent,
 			formatValue(h.Name, h.NameQuoted),
@@ -777,15 +744,9 @@ func writeMatchBody(b *bytes.Buffer, indent string, m *MatchBlock) {
 		)
 	}
 	for i, name := range m.HeaderExists {
-		if strings.TrimSpace(name) == "" {
-			continue
-		}
 		fmt.Fprintf(b, "%sheader_exists %s\n", indent, formatValue(name, quotedAt(m.HeaderExistsQuoted, i)))
 	}
 	for _, q := range m.Query {
-		if strings.TrimSpace(q.Name) == "" {
-			continue
-		}
 		fmt.Fprintf(b, "%squery %s %s\n",
 			indent,
 			formatValue(q.Name, q.NameQuoted),
@@ -793,15 +754,9 @@ func writeMatchBody(b *bytes.Buffer, indent string, m *MatchBlock) {
 		)
 	}
 	for i, raw := range m.RemoteIPs {
-		if strings.TrimSpace(raw) == "" {
-			continue
-		}
 		fmt.Fprintf(b, "%sremote_ip %s\n", indent, formatValue(raw, quotedAt(m.RemoteIPsQuoted, i)))
 	}
 	for i, name := range m.QueryExists {
-		if strings.TrimSpace(name) == "" {
-			continue
-		}
 		fmt.Fprintf(b, "%squery_exists %s\n", indent, formatValue(name, quotedAt(m.QueryExistsQuoted, i)))
 	}
 }
@@ -980,9 +935,6 @@ func hasRouteAuthHMACOptions(r Route) bool {
 func writeRouteAuthHMACBlock(b *bytes.Buffer, r Route) {
 	b.WriteString("  auth hmac {\n")
 	for i, s := range r.AuthHMACSecrets {
-		if strings.TrimSpace(s) == "" {
-			continue
-		}
 		if isAuthHMACRef(r, i) {
 			fmt.Fprintf(b, "    secret_ref %s\n", formatValue(s, quotedAt(r.AuthHMACSecretsQuoted, i)))
 		} else {
@@ -1012,9 +964,6 @@ func writeRouteAuthForwardBlock(b *bytes.Buffer, f ForwardAuthBlock) {
 		fmt.Fprintf(b, "    timeout %s\n", formatValue(f.Timeout, f.TimeoutQuoted))
 	}
 	for i, name := range f.CopyHeaders {
-		if strings.TrimSpace(name) == "" {
-			continue
-		}
 		fmt.Fprintf(b, "    copy_headers %s\n", formatValue(name, quotedAt(f.CopyHeadersQuoted, i)))
 	}
 	if f.BodyLimitSet {
